@@ -178,3 +178,55 @@ extern "C" void h_hint_qr(void) {
                    b->m_malformed_message_data.size() == 0, "tables no member of this record refers to stay empty (C04)");
     WITNESS_END();
 }
+
+// ---- generic section lists (C11/C01/C04): add_generic_rrlist / add_generic_qlist on a list of two symbolic records -------------------------------
+// every stored RR / Question denotes exactly the record it was built from (optional members present iff hinted and supplied -- in
+// particular nothing inherited from the previous record of the list), the returned list index denotes the list of these entries.
+static void sym(GenericResourceRecord& g) { sstr(g.name); g.classtype.type = nondet_u16(); g.classtype.class_ = nondet_u16(); oi(g.ttl); os(g.rdata); }
+extern "C" void h_generic_lists(void) {
+    uint8_t rr_hints = nondet_u8();
+    CdnsBlock* b = new_block(nondet_u32(), nondet_u32(), rr_hints, nondet_u8(), 3);
+    std::vector<GenericResourceRecord>* lp = new std::vector<GenericResourceRecord>(); std::vector<GenericResourceRecord>& l = *lp;
+    Box<GenericResourceRecord> g0, g1; new (&g0.v) GenericResourceRecord(); new (&g1.v) GenericResourceRecord(); sym(g0.v); sym(g1.v);
+#ifdef GLIST_CONCRETE
+    // quick tier: names, class/types and RDATA bytes concrete (distinct or equal per GLIST_CONCRETE), so that hashing and table look-ups are
+    // decided by constant propagation; still symbolic: the RR hint mask, presence of TTL / RDATA per record, the TTL values
+    { const char n0 = 'a', n1 = (GLIST_CONCRETE == 2) ? 'a' : 'b';
+      g0.v.name.m_len = 1; g0.v.name.m_data[0] = n0; g0.v.name.m_data[1] = 0; g1.v.name.m_len = 1; g1.v.name.m_data[0] = n1; g1.v.name.m_data[1] = 0;
+      for (size_t i = 2; i < VS_STRCAP + 1; i++) { g0.v.name.m_data[i] = 0; g1.v.name.m_data[i] = 0; }
+      g0.v.classtype.type = 1; g0.v.classtype.class_ = 1; g1.v.classtype.type = (GLIST_CONCRETE == 2) ? 1 : 28; g1.v.classtype.class_ = 1;
+      g0.v.rdata.m_val.m_len = 1; g0.v.rdata.m_val.m_data[0] = 'x'; g1.v.rdata.m_val.m_len = 1; g1.v.rdata.m_val.m_data[0] = 'y';
+      for (size_t i = 1; i < VS_STRCAP + 1; i++) { g0.v.rdata.m_val.m_data[i] = 0; g1.v.rdata.m_val.m_data[i] = 0; } }
+#endif
+    l.push_back(g0.v); l.push_back(g1.v);
+#ifdef GLIST_RR
+    bool rr = GLIST_RR != 0;
+#else
+    bool rr = nondet_bool();
+#endif
+    index_t li = rr ? b->add_generic_rrlist(l) : b->add_generic_qlist(l);
+    BlockTable<IndexListItem>& lists = rr ? b->m_rrlist : b->m_qlist;
+    __verif_assert(li < lists.size(), "the returned list index addresses an entry of the list table (C11)");
+    const IndexListItem& il = lists[li];
+    __verif_assert(il.list.size() == 2, "the stored list has one entry per record, in order (C01)");
+    for (unsigned k = 0; k < 2; k++) {
+        const GenericResourceRecord& g = k == 0 ? g0.v : g1.v;
+        index_t e = il.list.m_data[k];
+        if (rr) {
+            __verif_assert(e < b->m_rr.size(), "every index in the stored list addresses an entry of the RR table (C11)");
+            const RR& r = b->m_rr[e];
+            __verif_assert(r.name_index < b->m_name_rdata.size() && b->m_name_rdata[r.name_index].data == g.name, "the RR entry names the record's name (C11/C01)");
+            __verif_assert(r.classtype_index < b->m_classtype.size() && b->m_classtype[r.classtype_index] == g.classtype, "the RR entry carries the record's class/type");
+            bool want_ttl = (rr_hints & RrHintsMask::ttl) && g.ttl.m_init, want_rd = (rr_hints & RrHintsMask::rdata_index) && g.rdata.m_init;
+            __verif_assert(r.ttl.m_init == want_ttl && (!want_ttl || r.ttl.m_val == g.ttl.m_val), "TTL stored iff hinted and supplied by this record, with its value (C04/C01/C11)");
+            __verif_assert(r.rdata_index.m_init == want_rd, "RDATA stored iff hinted and supplied by this record (C04/C11)");
+            if (want_rd) __verif_assert(r.rdata_index.m_val < b->m_name_rdata.size() && b->m_name_rdata[r.rdata_index.m_val].data == g.rdata.m_val, "the RDATA index addresses this record's RDATA (C11/C01)");
+        } else {
+            __verif_assert(e < b->m_qrr.size(), "every index in the stored list addresses an entry of the question table (C11)");
+            const Question& q = b->m_qrr[e];
+            __verif_assert(q.name_index < b->m_name_rdata.size() && b->m_name_rdata[q.name_index].data == g.name, "the question entry names the record's name (C11/C01)");
+            __verif_assert(q.classtype_index < b->m_classtype.size() && b->m_classtype[q.classtype_index] == g.classtype, "the question entry carries the record's class/type");
+        }
+    }
+    WITNESS_END();
+}
